@@ -105,7 +105,13 @@ fn join_lines(components: &[String]) -> String {
 }
 
 fn deserialize_package_list(value: &str) -> Result<Vec<String>, String> {
-    Ok(value.split('\n').map(|s| s.to_string()).collect())
+    // One entry per line; the value usually starts on the line after the
+    // field name, and an empty list has no entries
+    Ok(value
+        .split('\n')
+        .filter(|s| !s.is_empty())
+        .map(|s| s.to_string())
+        .collect())
 }
 
 #[derive(Debug, Clone, PartialEq, Eq, ToDeb822, FromDeb822)]
